@@ -26,7 +26,6 @@ import (
 	"reflect"
 	"regexp"
 	"runtime/debug"
-	"runtime/pprof"
 	"strings"
 	"unicode"
 
@@ -144,6 +143,9 @@ func newDest(s *spec, r *core.Rand, encLen int, roundtrip bool) *dest {
 	} else {
 		L = []int{0, encLen, encLen + 5, encLen / 2, 3}[r.Intn(5)]
 		S = []int{0, 4, encLen + 8}[r.Intn(3)]
+		if s.fresh {
+			L = 0
+		}
 	}
 	can := canaryElem(s.typ.Elem())
 	back := reflect.MakeSlice(s.typ, guard+L+S+guard, guard+L+S+guard)
@@ -384,8 +386,10 @@ func (e *engine) evalOne(g *group, k int) bool {
 		p := generate(s, r, vclass)
 		byValue := s.pass == "value" || (s.pass == "either" && r.Intn(2) == 0)
 		rr := core.NewRand(*seed, hashName(g.name), int64(k), 7)
-		if k == 0 && *batch == 0 && (s.tclass == "slices" || s.tclass == "TStruct" || s.tclass == "named-float32") {
+		if k == 0 && *batch == 0 && ((s.codec == "form" && s.tclass == "slices") || s.tclass == "TStruct") {
+			detail = true
 			core.Sample(map[string]interface{}{"group": g.name, "vclass": vclass, "value": show(p.Elem().Interface())})
+			detail = false
 		}
 		f := roundtrip(s, p, byValue, rr)
 		if f != nil {
@@ -428,7 +432,9 @@ func (e *engine) evalOne(g *group, k int) bool {
 	di := k / len(gclasses)
 	rr := core.NewRand(*seed, hashName(g.name), int64(k), 7)
 	if k < 2 && *batch == 0 && s.codec == "form" && s.tclass == "arrays" {
+		detail = true
 		core.Sample(map[string]interface{}{"group": g.name, "gclass": gclass, "input": showBytes(data)})
+		detail = false
 	}
 	f := decodeGarbage(s, data, rr, di)
 	if s.oddDest {
@@ -459,7 +465,7 @@ func (e *engine) evalOne(g *group, k int) bool {
 					return true
 				}
 				return false
-			}, 600)
+			}, 2000)
 			_ = min
 			return last
 		})
@@ -494,11 +500,6 @@ func (e *engine) report(g *group, k int, vclass string, f *failure, again func()
 func main() {
 	flag.Parse()
 	core.Prop = *prop
-	if pf := os.Getenv("C11_CPUPROFILE"); pf != "" {
-		f, _ := os.Create(pf)
-		pprof.StartCPUProfile(f)
-		defer pprof.StopCPUProfile()
-	}
 	specs := buildSpecs()
 	groups := plan(specs, *tier)
 	e := &engine{g: newGarbler(specs), seen: map[string]int{}}
